@@ -292,6 +292,14 @@ def run_gammatone(case):
     if abs(gain - 1) > tol * max(gain, 1):
       return bad("gammatone:unit-gain", "the gammatone cascade must have unit gain at the centre frequency",
                  {"freq": f0, "bandwidth": bw, "gain": 1.0, "tolerance": tol}, gain)
+    # the response the returned object itself reports (the product of its sections' responses)
+    try:
+      lib = abs(cas.freq_response(f0))
+    except Exception as exc:
+      return bad("gammatone:freq_response:exception", "freq_response of the returned cascade raised", [f0, bw], repr(exc)[:160])
+    if abs(lib - gain) > 4 * tol * max(gain, 1) + 1e-12:
+      return bad("gammatone:freq_response", "the cascade's own freq_response at the centre frequency must be its sections' "
+                 "gain (unit)", {"freq": f0, "bandwidth": bw, "gain": gain, "tolerance": 4 * tol}, lib)
   return R(None, True, name, nf, {"designs": nf})
 
 
